@@ -1,1 +1,48 @@
-fn main() { println!("vx"); }
+#![allow(dead_code)]
+mod checks;
+mod common;
+mod drive;
+mod explore;
+mod fam_lock;
+mod prog;
+
+use common::Tier;
+
+fn main() {
+    let args: Vec<String> = std::env::args().collect();
+    match args.get(1).map(|s| s.as_str()) {
+        Some("check") => {
+            let id = args.get(2).cloned().unwrap_or_default();
+            match args.get(3).map(|s| s.as_str()) {
+                Some("--replay") => checks::replay_file(&id, args.get(4).expect("replay path")),
+                Some("thorough") => checks::run_check(&id, Tier::Thorough),
+                Some("quick") | None => {
+                    let tier = match std::env::var("VERIF_TIER").as_deref() {
+                        Ok("thorough") => Tier::Thorough,
+                        _ => Tier::Quick,
+                    };
+                    checks::run_check(&id, tier)
+                }
+                Some(x) => {
+                    eprintln!("unknown tier {}", x);
+                    std::process::exit(2)
+                }
+            }
+        }
+        Some("worker") => {
+            // worker <family> <set> <mode-json> <shard> <nshards> <from> <only|-> <deadline>
+            let fam = checks::family(&args[2]);
+            let mode = drive::mode_from_json(&serde_json::from_str(&args[4]).expect("mode json"));
+            let shard: usize = args[5].parse().unwrap();
+            let nshards: usize = args[6].parse().unwrap();
+            let from: usize = args[7].parse().unwrap();
+            let only: Option<usize> = args[8].parse().ok();
+            let deadline: f64 = args[9].parse().unwrap();
+            drive::worker_main(fam.as_ref(), &args[3], &mode, shard, nshards, from, only, deadline);
+        }
+        _ => {
+            eprintln!("usage: vx check <id> quick|thorough|--replay <file>");
+            std::process::exit(2);
+        }
+    }
+}
